@@ -198,6 +198,11 @@ def blocks_to_bytes(
     if isinstance(block_type, Function) and block_type.docstring is not None:
         constants[0] = block_type.docstring
 
+    # The freevars are indexed after the cellvars, so count all the cellvars first,
+    # so that we know the size of the freevar args when computing the jump offsets.
+    cellvar_args = [i.arg for block in blocks for i in block] + list(additional_args)
+    n_cellvars = len({arg.cellvar for arg in cellvar_args if isinstance(arg, Cellvar)})
+
     # Iterate through all blocks and change jump instructions to offsets
     while changed_instruction_lengths:
 
@@ -218,6 +223,8 @@ def blocks_to_bytes(
                         cellvars,
                         constants,
                     )
+                    if isinstance(instruction.arg, Freevar):
+                        arg_value += n_cellvars
                     args[block_index, instruction_index] = arg_value
                 n_instructions = instruction._n_args_override or _instrsize(arg_value)
                 current_instruction_offset += n_instructions
@@ -257,13 +264,7 @@ def blocks_to_bytes(
     for arg in additional_args:
         from_arg(arg, block_type, freevars, names, varnames, cellvars, constants)
 
-    # Now that we know the total number of cellvars, incremement all the freevar
-    # indices by the number of cellvars, for each arg
-    for block_index, block in enumerate(blocks):
-        for instruction_index, instruction in enumerate(block):
-            arg = instruction.arg
-            if isinstance(arg, Freevar):
-                args[block_index, instruction_index] += len(cellvars)
+    assert n_cellvars == len(cellvars)
 
     # Finally go assemble the bytes and the line mapping
     bytes_: list[int] = []
